@@ -386,7 +386,8 @@ def extract_values(h, art, workdir, failed, cap_t, cap_mem):
             if p.get("property") == pick["pid"] and p.get("status") == "FAILURE" and "trace" in p:
                 vals = []
                 for st in p["trace"]:
-                    if st.get("stepType") == "assignment" and st.get("lhs") == "zv_sym_val":
+                    if st.get("stepType") == "assignment" and st.get("lhs") == "zv_sym_val" \
+                            and st.get("assignmentType") == "actual-parameter":
                         v = st.get("value", {})
                         b = v.get("binary")
                         if b is None:
@@ -482,7 +483,7 @@ def main():
         h = reg[rp["harness"]]
         vp = a.replay + ".vals.json"
         json.dump(rp["values"], open(vp, "w"))
-        outs = native_replay(h, vp, rp.get("features", []))
+        outs = native_replay(h, vp, rp.get("features", []) or ["p_" + prop.lower()])
         for k, v in outs.items():
             log(f"replay[{k}]: {v['verdict']} rc={v['rc']}")
             log(v["tail"])
@@ -493,7 +494,7 @@ def main():
 
     kfs = [k for k in load_known_findings() if k["property"] == prop]
     open_kf = {k["id"]: k for k in kfs if k.get("status") == "open"}
-    features = sorted("kf_" + k for k in open_kf)
+    features = sorted("kf_" + k for k in open_kf) + ["p_" + prop.lower()]
 
     hs = [h for h in reg.values() if h["prop"] == prop]
     if a.tier == "quick":
